@@ -6,7 +6,8 @@ import guards
 CLAIMS = ("R1 the two evaluators use the same logic class for AND/OR: if the interpreter is Kleene the compiled path must decline nullable AND/OR programs (or not admit them); if the interpreter is null-strict the compiled validity (AND of leaf validities) agrees; "
           "R2 no primitive IEEE comparison (<,<=,>,>=,==,!=) on f64 operands is executed inside the compiled evaluator, because the interpreter's arrow kernels compare floats in the total order (NaN greatest, -0.0 < +0.0); "
           "R3 the compiler refuses what the interpreter would coerce: a comparison instruction is pushed only past `ta != tb => None`, and evaluate() downcasts a column only past the `data_type() != dt => None` test; "
-          "R4 QE_COMPILE is read only in compilation_enabled(), and every CompiledPredicate::compile call is dominated by it.")
+          "R4 QE_COMPILE is read only in compilation_enabled(), and every CompiledPredicate::compile call is dominated by it; "
+          "R5 the compiler emits the operation the expression names: the `op` of every arithmetic instruction comes from the expression node being compiled (never a constant chosen by the compiler), and a literal instruction carries the expression's literal untouched by arithmetic (no strength reduction such as x / c -> x * (1/c): the interpreter's kernels round differently).")
 NOT_DECIDED = "bit-equality of masks for every batch (a value property); arithmetic result equality."
 
 CE = "physical::compiled_expr"
@@ -110,3 +111,58 @@ def run(F, R):
     # nobody constructs a CompiledPredicate except compile()
     makers = [g.path for g in F.fns_building("adt:" + CE + "::CompiledPredicate")]
     R.check(set(makers) <= {cp.path}, "C06.R4", "CompiledPredicate:only-built-by-compile", f"CompiledPredicate is constructed in {makers}", "", nontrivial=False)
+    operator_fidelity(F, R)
+
+def operator_fidelity(F, R):
+    R.rule("C06.R5", "K5 provenance of instruction fields", "Instr::Arith.op derives from the compiled expression's op; Instr::LitF64.v has no arithmetic in its slice")
+    n = 0
+    for g in F.in_file("src/physical/compiled_expr.rs"):
+        b = F.bodies[g.path]
+        if b.get("impl_trait"):
+            continue        # derives (Clone/Debug)
+        for i, j, dst, rv, line in g.stmts():
+            if rv[0] != "agg" or "::Instr::" not in rv[1]:
+                continue
+            var = rv[1].rsplit("::", 1)[-1]
+            m = dict(zip(rv[3], rv[2]))
+            if var == "Arith" and "op" in m:
+                n += 1
+                o = origin(g, m["op"])
+                from_expr = bool(derives_from(g, [m["op"]], lambda k, x: (k == "place" and any(a.endswith("logical_expr::Expr") for f_, a in place_fields(x)) and x) or None, through_calls=False))
+                const_op = (o[0] == "rv" and o[1][0] == "agg" and "BinaryOp::" in o[1][1]) or o[0] == "const"
+                R.check(from_expr and not const_op, "C06.R5", f"{b['name']}:Arith.op@{_k(g, i)}", "an arithmetic instruction is emitted with an operator the compiler chose itself instead of the expression's operator: the compiled program computes a different function than the interpreter (e.g. x * (1/c) for x / c differs by one ulp for most c)", g.loc(i), dict(op=str(o)[:80]))
+            if var == "LitF64" and "v" in m:
+                n += 1
+                arith = []
+                defs = g.defs()
+                seen_, work_ = set(), [m["v"]]
+                while work_:
+                    o_ = work_.pop()
+                    if isinstance(o_, dict):
+                        continue
+                    q = op_place(o_) if (len(o_) > 1 and o_[1] == ":") else o_
+                    if not q:
+                        continue
+                    l_ = place_local(q)
+                    if l_ in seen_:
+                        continue
+                    seen_.add(l_)
+                    for bb_, kind_, pay_ in defs.get(l_, []):
+                        if kind_ == "call":
+                            if pay_.name.rsplit("::", 1)[-1] in ("recip", "powi", "powf", "sqrt", "mul_add", "div", "mul", "add", "sub"):
+                                arith.append(pay_.name.rsplit("::", 1)[-1])
+                            continue
+                        dst_, rv_, line_ = pay_
+                        if rv_[0] == "bin" and rv_[1] in ("Div", "Mul", "Add", "Sub", "Rem"):
+                            arith.append(rv_[1])
+                        elif rv_[0] == "use":
+                            work_.append(rv_[1])
+                        elif rv_[0] in ("ref", "cast", "un"):
+                            work_.append(rv_[2])
+                R.check(not arith, "C06.R5", f"{b['name']}:LitF64.v@{_k(g, i)}", f"a literal instruction carries a value the compiler computed ({sorted(set(arith))}) instead of the expression's literal", g.loc(i), dict())
+    R.floor("C06.R5", "Arith / LitF64 instruction constructions in the compiler", n, 2)
+
+
+def _k(g, bb):
+    sites = sorted({i for i, j, dst, rv, line in g.stmts() if rv[0] == "agg" and "::Instr::" in rv[1]})
+    return sites.index(bb) if bb in sites else -1
